@@ -1,5 +1,6 @@
 import Tumfl.Props.C05
 import Tumfl.Props.C20
+import Tumfl.Props.Lex
 #print axioms Tumfl.Props.C05_model_reads
 #print axioms Tumfl.Props.C05_reference_reads
 #print axioms Tumfl.Props.C05_same_value
@@ -9,3 +10,7 @@ import Tumfl.Props.C20
 #print axioms Tumfl.Inst.escChar_in_table
 #print axioms Tumfl.Props.C05_long_brackets
 #print axioms Tumfl.Props.C05_comments
+#print axioms Tumfl.Props.Lex_sound
+#print axioms Tumfl.Props.Lex_complete
+#print axioms Tumfl.Props.Lex_cr_counterexample
+#print axioms Tumfl.Props.Lex_byte_counterexample
